@@ -1,6 +1,6 @@
 #!/bin/sh
 # usage: tools/try_seed.sh <ID> [tier]  -- confirm a seeded change (/var/tmp/seedout-<ID>) and run ./check <ID> against it
-ID="$1"; TIER="${2:-quick}"; OUT=/var/tmp/seedout-$ID; WT=/var/tmp/seedtest-$ID
+ID="$1"; TIER="${2:-quick}"; OUT=${SEEDOUT:-/var/tmp/seedout-$ID}; WT=/var/tmp/seedtest-$ID
 [ -f "$OUT/patch.diff" ] || { echo "no patch"; exit 2; }
 git -C /repo worktree remove --force "$WT" 2>/dev/null
 git -C /repo worktree add --detach "$WT" HEAD >/dev/null 2>&1 || exit 2
